@@ -94,6 +94,8 @@ def inject(c, fault, meth):
     elif fault == 'false_after_fill':
         # false only once the (fixed) horizon is written in: T = 1
         st.subject_to(st.T <= 0.5)
+    elif fault == 'spline_quadstate':
+        c.xq = st.state(quad=True); st.set_der(c.xq, c.x ** 2); st.add_objective(st.at_tf(c.xq))
     elif fault == 'inf_nonpolynomial':
         import random as _r
         e = _r.Random(hash((meth, st is c.ocp)) % 1000).choice([lambda x: ca.sin(x), lambda x: ca.exp(x), lambda x: ca.sqrt(x + 50), lambda x: 1 / (x + 50), lambda x: x / 2 + ca.cos(x)])
